@@ -103,7 +103,19 @@ def instances(draw: Any, classes: tuple[str, ...] = CLASSES_ALL,
             w, h = min(w, 2), min(h, 2)
         items.append([w, h, mult])
         total += mult
-    return {"cls": cls, "W": W, "H": H, "items": items}
+    case = {"cls": cls, "W": W, "H": H, "items": items}
+    # how the caller hands the matrix to the constructor: nested lists, or a
+    # numpy array of the narrowest / a wider integer type that holds it
+    mx = max(max(r) for r in items)
+    fits = [t for t, lim in (("int8", 127), ("uint8", 255), ("int16", 32767),
+                             ("uint16", 65535), ("int32", 2 ** 31 - 1),
+                             ("int64", 2 ** 63 - 1)) if mx <= lim]
+    how = draw(st.sampled_from(["list", "list", "narrow", "any"]))
+    if how == "narrow":
+        case["matrix_dtype"] = fits[0]
+    elif how == "any":
+        case["matrix_dtype"] = draw(st.sampled_from(fits))
+    return case
 
 
 @st.composite
@@ -249,7 +261,10 @@ def build_instance(case: dict, name: str = "gen"):
     from moptipyapps.binpacking2d.instance import Instance
     from vf.core import time_limit
     W, H = int(case["W"]), int(case["H"])
-    rows = [list(map(int, r)) for r in case["items"]]
+    rows: Any = [list(map(int, r)) for r in case["items"]]
+    if case.get("matrix_dtype"):
+        import numpy as np
+        rows = np.array(rows, dtype=np.dtype(case["matrix_dtype"]))
     if max(W, H) > 100_000:
         with time_limit(CONSTRUCTOR_WATCHDOG_S):
             return Instance(name, W, H, rows)
